@@ -5,3 +5,4 @@ import FeemsModel.Model.Result
 import FeemsModel.Model.Integrate
 import FeemsModel.Model.Storage
 import FeemsModel.Model.Pms
+import FeemsModel.Model.Bus
